@@ -591,6 +591,11 @@ impl<'a> VisitMut for Rw<'a> {
                 // free byte-string constants become accessor calls (E4)
                 if ep.qself.is_none() && ep.path.segments.len() == 1 {
                     let id = ep.path.segments[0].ident.to_string();
+                    if id == "UNIX_EPOCH" {
+                        self.bump("E4.const_accessor");
+                        *e = parse_ex("UNIX_EPOCH()");
+                        return;
+                    }
                     if is_screaming(&id) {
                         // a byte-string const declared inside this function shadows file-level ones
                         if self.local_byte_consts.contains(&id) {
